@@ -48,7 +48,8 @@ pub fn build_xml(rec: &Value) -> String {
                 s.push_str(&format!("<TxDtls><Refs><AcctSvcrRef>R{}-{}</AcctSvcrRef></Refs><Amt Ccy=\"CHF\">{}</Amt><CdtDbtInd>{}</CdtDbtInd>\n", k + 1, j + 1, two(amt), dcd));
                 if !charge.is_zero() {
                     s.push_str(&format!("<AmtDtls><InstdAmt><Amt Ccy=\"CHF\">{}</Amt></InstdAmt><TxAmt><Amt Ccy=\"CHF\">{}</Amt></TxAmt></AmtDtls>\n", two(amt - charge), two(amt - charge)));
-                    s.push_str(&format!("<Chrgs><TtlChrgsAndTaxAmt Ccy=\"CHF\">{}</TtlChrgsAndTaxAmt><Rcrd><Amt Ccy=\"CHF\">{}</Amt><CdtDbtInd>DBIT</CdtDbtInd><ChrgInclInd>true</ChrgInclInd></Rcrd></Chrgs>\n", two(charge), two(charge)));
+                    s.push_str(&format!("<Chrgs><TtlChrgsAndTaxAmt Ccy=\"CHF\">{}</TtlChrgsAndTaxAmt><Rcrd><Amt Ccy=\"CHF\">{}</Amt><CdtDbtInd>{}</CdtDbtInd><ChrgInclInd>true</ChrgInclInd></Rcrd></Chrgs>\n",
+                        two(charge), two(charge), if charge.is_sign_negative() { "CRDT" } else { "DBIT" }));
                 }
                 s.push_str(&format!("<RltdPties><Cdtr><Nm>Party {}</Nm></Cdtr></RltdPties><AddtlTxInf>detail {}</AddtlTxInf></TxDtls>\n", j + 1, j + 1));
             }
